@@ -164,19 +164,27 @@ def structured_families() -> tuple[dict, dict]:
         "EnumHolder": ({"type": "object", "properties": {"e": ref("ES"), "i": ref("EI"), "le": {"type": "array", "items": ref("ES")}}},
                        [{"e": "a", "i": 2, "le": ["a", "b", "a"]}, {}]),
     }
+    # enum values that need escaping when they are written into source (both enum styles must reproduce them), integer enums with a sign
+    odd = ['a"b', "C:\\exports", "tab\tsep", "line\nbreak", "it's", "plain", "\\\\nas\\share", "uni\u2028", ""]
+    fam["EnumOdd"] = ({"type": "object", "properties": {"e": {"type": "string", "enum": odd}, "i": {"type": "integer", "enum": [-1, 0, 10]}, "le": {"type": "array", "items": {"type": "string", "enum": odd}}}},
+                      [{"e": v} for v in odd] + [{"i": -1}, {"i": 0, "le": odd}, {}])
+    # `format` does not restrict a number to whole values; integers given as JSON floats are not judged (whole-number floats)
+    fam["NumFormats"] = ({"type": "object", "properties": {"n32": {"type": "number", "format": "int32"}, "n64": {"type": "number", "format": "int64"}, "f": {"type": "number", "format": "float"},
+                                                            "arr": {"type": "array", "items": {"type": "number", "format": "int32"}}, "odd": {"type": "integer", "format": "double"}}},
+                         [{"n32": 12.5, "n64": 0.25, "f": 1.5, "arr": [10.75, 12.5]}, {"n32": 3, "odd": 4}, {}])
     # every presence pattern of three optional properties of different kinds
     fam["Presence"] = ({"type": "object", "properties": {"a": {"type": "string", "format": "date"}, "b": ref("M"), "c": {"type": ["integer", "null"]}}},
                        [{k: v for k, v in zip("abc", vals) if v != "ABSENT"} for vals in itertools.product(["2020-01-02", "ABSENT"], [{"v": 1}, "ABSENT"], [5, None, "ABSENT"])])
     return comps, fam
 
 
-def structured(rep, d, pkg: str = "structured", comps=None, fam=None, doc=None, names=None, prop: str = "C02") -> None:
+def structured(rep, d, pkg: str = "structured", comps=None, fam=None, doc=None, names=None, prop: str = "C02", **cf) -> None:
     if fam is None:
         comps, fam = structured_families()
     schemas = {**comps, **{k: v[0] for k, v in fam.items()}}
     validity = codec.screen_validity([(ref(k), v[1]) for k, v in fam.items()], components=schemas)
     doc = doc or gen.mkdoc(schemas=schemas)
-    g = gen.generate(doc, d / pkg)
+    g = gen.generate(doc, d / pkg, **cf)
     if g["exc"] or g["rejected"] or g["diags"]:
         rep.violate(f"{prop}/{pkg}-family-not-generated", f"{pkg} families did not generate cleanly: {g['exc'] or g['diags'][:2]}", doc=doc)
         return
@@ -193,13 +201,36 @@ def plain(v):
     if isinstance(v, list): return all(plain(x) for x in v)
     if isinstance(v, dict): return all(isinstance(k, str) and plain(x) for k, x in v.items())
     return False
+import typing, datetime, uuid, enum
+types_mod = importlib.import_module(job["pkg"] + ".types")
+def conforms(v, hint):
+    origin = typing.get_origin(hint)
+    if hint is typing.Any: return True
+    if hint is None or hint is type(None): return v is None
+    if origin is typing.Union: return any(conforms(v, a) for a in typing.get_args(hint))
+    if origin is typing.Literal: return any(v == a and type(v) is type(a) for a in typing.get_args(hint))
+    if origin in (list, typing.List):
+        args = typing.get_args(hint)
+        return isinstance(v, list) and (not args or all(conforms(x, args[0]) for x in v))
+    if origin in (dict, typing.Dict): return isinstance(v, dict)
+    if isinstance(hint, type):
+        if hint is float: return isinstance(v, (int, float)) and not isinstance(v, bool)
+        if hint is int: return isinstance(v, int) and not isinstance(v, bool)
+        if hint is datetime.date: return isinstance(v, datetime.date) and not isinstance(v, datetime.datetime)
+        return isinstance(v, hint)
+    if origin is not None and isinstance(origin, type): return isinstance(v, origin)
+    return True
+def untruthful(C, o):
+    try: hints = typing.get_type_hints(C, vars(m) | vars(types_mod) | {"datetime": datetime, "UUID": uuid.UUID})
+    except Exception as ex: return ["<hints: %s>" % str(ex)[:80]]
+    return [f"{n}={type(getattr(o, n)).__name__} !: {h}" for n, h in hints.items() if n != "additional_properties" and hasattr(o, n) and not conforms(getattr(o, n), h)]
 out = {}
 for cls, insts in job["fam"].items():
     C = getattr(m, job["names"].get(cls, cls)); res = []
     for j in insts:
         try:
             o = C.from_dict(j); e = o.to_dict()
-            res.append({"ok": True, "enc": e if plain(e) else repr(e), "plain": plain(e), "same": plain(e) and json.loads(json.dumps(e)) == j,
+            res.append({"ok": True, "untruthful": untruthful(C, o), "enc": e if plain(e) else repr(e), "plain": plain(e), "same": plain(e) and json.loads(json.dumps(e)) == j,
                         "redec": C.from_dict(e) == o})
         except Exception as ex:
             res.append({"ok": False, "err": type(ex).__name__ + ": " + str(ex)[:120]})
@@ -226,6 +257,8 @@ print(json.dumps(out))
                             schema=schema, instance=inst, got=r["enc"])
             elif not r["same"]:
                 rep.violate(f"{prop}/{pkg}/{k}/round-trip", f"{k}: {json.dumps(inst)} re-encodes as {json.dumps(r['enc'])}", schema=schema, instance=inst, got=r["enc"])
+            elif prop == "C11" and r.get("untruthful"):
+                rep.violate(f"C11/{pkg}/{k}/annotation-untruthful", f"{k}: decoding {json.dumps(inst)} stores {r['untruthful'][:3]}", schema=schema, instance=inst)
             elif r["redec"] is not True:
                 rep.violate(f"{prop}/{pkg}/{k}/redecode-differs", f"{k}: decoding the re-encoded value gives a different object", schema=schema, instance=inst)
     rep.extra[f"{pkg}_families"] = len(fam)
@@ -259,6 +292,7 @@ def run(rep) -> None:
         rep.extra["trace_nonconforming"] = len(post[0]["nonconforming"]) - 1
         rep.extra["trace_K1_failures_by_TLC"] = len(post[0]["k1"])
         structured(rep, d)
+        structured(rep, d, pkg="structured_literal", literal_enums=True)
         # the construct zoo: rarely combined constructs with hand-written instances (screened by jsonschema like everything else)
         from .. import zoo
         zdoc = zoo.zoo_clean()
